@@ -152,6 +152,11 @@ class ZemaxFileReader:
         if not success:
             raise ValueError('Failed to read Zemax file.')
 
+        # the last surface block (the image surface) is closed by the end of
+        # the file, not by another SURF line
+        if self._current_surf >= 0:
+            self.data['surfaces'][self._current_surf] = self._current_surf_data
+
         # sort and filter fields
         unique_fields = set()
         for i in range(min(len(self.data['fields']['x']),
